@@ -12,16 +12,16 @@ def main():
     rows = ["| seeded change | what it needs | caught by | history |", "|---|---|---|---|"]
     late = 0
     missed = []
-    for name in sorted(res, key=lambda n: (n.split("_")[0], "r3" in n, "r2" in n, n)):
+    for name in sorted(res, key=lambda n: (n.split("_")[0], "r4" in n, "r3" in n, "r2" in n, n)):
         meta = json.load(open(os.path.join(ROOT, "seeded", name, "meta.json")))
         how = res[name]["how"]
         if how.startswith("NOT caught"):
             missed.append(name)
-        elif not how.startswith("caught") and "caught by C06 from the start" not in how and "caught by C12 from the start" not in how:
+        elif not how.startswith("caught") and "caught by C06 from the start" not in how and "caught by C12 from the start" not in how and "caught by C05 from the start" not in how and "caught by C13 from the start" not in how:
             late += 1
         rows.append("| %s | %s | %s | %s |" % (name, meta["title"][:110].replace("|", "/"), res[name]["caught_by"], how.replace("|", "/")))
     rows.append("")
-    rows.append("%d of %d seeded changes are detected by the quick tier of the named check; %d of them were missed,\nmasked or crashed the check when first tried and led to the strengthenings in the last column; not detected: %s.\nNames with `_r2` / `_r3` are the second and third rounds (written by fresh sub-agents after the earlier rounds' strengthenings\nhad been committed, and told which mechanisms had already been used)." % (len(res) - len(missed), len(res), late, ", ".join(missed) or "none"))
+    rows.append("%d of %d seeded changes are detected by the quick tier of the named check; %d of them were missed,\nmasked or crashed the check when first tried and led to the strengthenings in the last column; not detected: %s.\nNames with `_r2` / `_r3` / `_r4` are the second, third and fourth rounds (written by fresh sub-agents after the earlier rounds' strengthenings\nhad been committed, and told which mechanisms had already been used)." % (len(res) - len(missed), len(res), late, ", ".join(missed) or "none"))
     p = os.path.join(ROOT, "DESIGN.md")
     s = open(p).read()
     s = re.sub(r"<!-- seedtable -->.*<!-- /seedtable -->", lambda _m: "<!-- seedtable -->\n" + "\n".join(rows) + "\n<!-- /seedtable -->", s, flags=re.S)
